@@ -64,6 +64,9 @@ def mutate(kind, cls, inst, meta, rng):
     special = None
     # elements that do not count: explicitly ignored ones and those with error scale 0 (documented as equivalent to ignoring)
     ign = [x for x in (kw.get("elements_to_ignore") or [])] + [e for e, f in (kw.get("error_scaling") or []) if f == 0]
+    if kind in ("negative_weight", "missing_weight", "non_conserving"):
+        # with a percentile-based ignore list the mutated element could itself fall below the percentile and be (legitimately) ignored
+        kw.pop("elements_to_ignore_percentile", None)
     if kind == "non_string_nodes":
         special = "int_nodes"
     elif kind == "cyclic_for_dag":
